@@ -373,7 +373,11 @@ def run(ctx):
     nb = sum(1 for r in records if r["borderline"])
     ctx.log(f"[C17] {len(systems)} systems, runs per solver {runs}, {len(records)} stored steps judged by TLC, {len(bad)} rejected, {nb} with a borderline block; "
             f"runs that ended loudly (not judged): {notjudged}")
-    ctx.coverage = {"states": r_t.distinct + rt.distinct, "transitions": max(r_t.generated + rt.generated, 1), "traces_validated_against_impl": len(records),
+    nontrivial = {(r["solver"], repr(sorted(r["tag"].items(), key=str)), r["step"]) for r in records if r["step"] > 0}
+    ctx.coverage = {"evaluations": len(records), "distinct_nontrivial": len(nontrivial),
+                    "rule": "every stored step of every (solver, system, step size) run is one record (the residual blocks of the scheme evaluated at the stored "
+                            "state) judged by TLC's trace mode of Scheme.tla; non-trivial = a step after the initial row; distinct by (solver, run tag, step)",
+                    "states": r_t.distinct + rt.distinct, "transitions": max(r_t.generated + rt.generated, 1), "traces_validated_against_impl": len(records),
                     "samples": [{k: records[0][k] for k in ("solver", "step", "vals", "tag")}], "runs": runs, "borderline_steps": nb, "not_judged": notjudged,
                     "step_sizes": dts, "systems": [d for _, d, _ in systems]}
     ctx.assumptions = ["solver tolerances 1e-10; a block is 'ok' below its threshold (1e-7 absolute for g, 1e-7..1e-8 relative to the velocity scale for g_dot, 1e-12 for |P|^2-1, "
